@@ -107,6 +107,23 @@ pub fn foreign_candidates(cfg: &FileCfg, t0_ns: i64) -> Vec<String> {
         c.push(format!("{prefix}{sep}{infix}.restart-abcd{sfx}"));
         c.push(format!("{prefix}{sep}{infix}.restart{sfx}"));
     }
+    if cfg.nam().is_some_and(Nam::is_ts) {
+        // what a lenient timestamp parser accepts, but the logger never writes: fields without
+        // zero padding, a sign, a blank
+        for infix in &infixes {
+            let mut vs = vec![infix.replacen("-0", "-", 1), infix.replacen("_0", "_", 1), infix.replacen("0", "", 1)];
+            if let Some(pos) = infix.find(|ch: char| ch.is_ascii_digit()) {
+                let (a, b) = infix.split_at(pos);
+                vs.push(format!("{a}+{b}"));
+                vs.push(format!("{a} {b}"));
+            }
+            for v in vs {
+                if v != *infix {
+                    c.push(format!("{prefix}{sep}{v}{sfx}"));
+                }
+            }
+        }
+    }
     for near in [
         "r0001", "r1", "r", "rX", "r0000a", "rCURRENT2", "rcurrent", "CURRENT", "r2024-03-10_11-30", "r2024-13-45_99-99-99", "r2024-03-10", "2024-03-10_11-30-30", "00001",
         // digits that are numeric in Unicode but not ASCII (full-width, Arabic-Indic, superscript)
